@@ -8,11 +8,16 @@
    path (absolute, ends in "/"), H the host id (one normal path element, server-chosen).
    Every [site_*] function is the literal derivation of one place in the siglens code.
 
-   FULL STATEMENT wanted by the property, for every site s and EVERY name n:
-       is_dir D -> good_host H -> confined D (site_s D H n) = true.
-   It is false for the sites marked REFUTED below (the code applies no validator, or one
-   that does not look at path structure); there the proved variant carries the exact boolean
-   guard and a witness shows the unguarded statement fails. *)
+   FULL STATEMENT wanted by the property, for every site s and EVERY name n that the code's
+   validator of that site accepts:
+       is_dir D -> good_host H -> validator_s n = true -> confined D (site_s D H n) = true.
+   Since fix C19-validate-names (utils.IsSafePathComponent = [safe_component], called at lookup
+   upload, inputlookup, bulk / ingest index names, delete-index, AddAliases / RemoveAliases and
+   the tags-tree flush) this holds at every site: the [*_confined] theorems below have the
+   code's validator as their only hypothesis on the name.  The [*_guarded] theorems are the more
+   general sufficient conditions; the [*_refuted] theorems are kept as documentation of the
+   code BEFORE the fix (validators [upload_ok_v0], [inputlookup_ok_v0], none at the other
+   sites) and, for route-parameter sites, of what the handler does without the router. *)
 From SigM Require Import Base Paths.
 From SigP Require Import BaseProofs PathsProofs.
 Open Scope N_scope.
@@ -62,13 +67,17 @@ Proof. exact concat_confined. Qed.
 Print Assumptions C19_concat_confined.
 
 (* ---------- sites ---------- *)
-(* lookup upload (form field "name"): REFUTED.  Code's validator: name <> "". *)
+(* lookup upload (form field "name").  Validator: IsSafePathComponent (before the fix: name <> ""). *)
+Theorem C19_lookup_upload_confined : forall D name gz, is_dir D -> upload_ok name = true ->
+  confined D (site_lookup_upload D name gz) = true.
+Proof. exact site_lookup_upload_confined. Qed.
+Print Assumptions C19_lookup_upload_confined.
 Theorem C19_lookup_upload_guarded : forall D name gz, is_dir D ->
   stays_within 1 (upload_name name gz) = true -> confined D (site_lookup_upload D name gz) = true.
 Proof. exact site_lookup_upload_guarded. Qed.
 Print Assumptions C19_lookup_upload_guarded.
 Theorem C19_lookup_upload_escape_refuted : exists D name gz,
-  is_dir D /\ upload_ok name = true /\ confined D (site_lookup_upload D name gz) = false.
+  is_dir D /\ upload_ok_v0 name = true /\ confined D (site_lookup_upload D name gz) = false.
 Proof. exact site_lookup_upload_refuted. Qed.
 Print Assumptions C19_lookup_upload_escape_refuted.
 
@@ -83,13 +92,17 @@ Theorem C19_lookup_file_unguarded_refuted : exists D name,
 Proof. exact site_lookup_file_unguarded_refuted. Qed.
 Print Assumptions C19_lookup_file_unguarded_refuted.
 
-(* inputlookup (query text): REFUTED.  Code's validator: isCSVFormat. *)
+(* inputlookup (query text).  Validators: IsSafePathComponent and isCSVFormat (before the fix: only the latter). *)
+Theorem C19_inputlookup_confined : forall D f, is_dir D -> inputlookup_ok f = true ->
+  confined D (site_inputlookup D f) = true.
+Proof. exact site_inputlookup_confined. Qed.
+Print Assumptions C19_inputlookup_confined.
 Theorem C19_inputlookup_guarded : forall D f, is_dir D -> stays_within 1 f = true ->
   confined D (site_inputlookup D f) = true.
 Proof. exact site_inputlookup_guarded. Qed.
 Print Assumptions C19_inputlookup_guarded.
 Theorem C19_inputlookup_escape_refuted : exists D f,
-  is_dir D /\ inputlookup_ok f = true /\ confined D (site_inputlookup D f) = false.
+  is_dir D /\ inputlookup_ok_v0 f = true /\ confined D (site_inputlookup D f) = false.
 Proof. exact site_inputlookup_refuted. Qed.
 Print Assumptions C19_inputlookup_escape_refuted.
 
@@ -110,8 +123,16 @@ Theorem C19_scroll_confined : forall D H table id, is_dir D -> good_host H ->
 Proof. exact site_scroll_confined. Qed.
 Print Assumptions C19_scroll_confined.
 
-(* index name of a bulk action line: suffix file, segment directory, directory removed by
-   delete-index.  REFUTED: the code applies no validator. *)
+(* index name of a bulk action line (and of every other ingest path through
+   ProcessIndexRequestPle): suffix file, segment directory, directory removed by delete-index.
+   Validator: IsSafePathComponent (before the fix: none). *)
+Theorem C19_bulk_index_confined : forall D H idx sid suf, is_dir D -> good_host H -> index_ok idx = true ->
+  numeral sid = true -> numeral suf = true ->
+  confined D (site_suffix_file D H idx sid) = true /\
+  confined D (site_segdir D H idx sid suf) = true /\
+  confined D (site_active_dir D H idx) = true.
+Proof. exact site_bulk_index_confined. Qed.
+Print Assumptions C19_bulk_index_confined.
 Theorem C19_suffix_file_guarded : forall D H idx sid, is_dir D -> good_host H ->
   no_slash idx = true -> no_slash sid = true -> confined D (site_suffix_file D H idx sid) = true.
 Proof. exact site_suffix_file_guarded. Qed.
@@ -132,7 +153,13 @@ Theorem C19_bulk_index_escape_refuted : exists D H idx sid suf,
 Proof. exact site_bulk_index_refuted. Qed.
 Print Assumptions C19_bulk_index_escape_refuted.
 
-(* mapping and alias files (route parameter: guarded; _aliases request body: REFUTED) *)
+(* mapping and alias files.  Route parameters are single elements; names from the _aliases
+   request body (index and alias) pass IsSafePathComponent in AddAliases / RemoveAliases
+   (before the fix: no validator). *)
+Theorem C19_alias_body_confined : forall D H org idx, is_dir D -> good_host H ->
+  (org = [] \/ numeral org = true) -> alias_ok idx = true -> confined D (site_alias D H org idx) = true.
+Proof. exact site_alias_confined. Qed.
+Print Assumptions C19_alias_body_confined.
 Theorem C19_mapping_guarded : forall D H org idx, is_dir D -> good_host H ->
   (org = [] \/ numeral org = true) -> no_slash idx = true -> confined D (site_mapping D H org idx) = true.
 Proof. exact site_mapping_guarded. Qed.
@@ -151,7 +178,13 @@ Theorem C19_metrics_confined : forall D H mid suf, is_dir D -> good_host H ->
   numeral mid = true -> numeral suf = true -> confined D (site_metrics D H mid suf) = true.
 Proof. exact site_metrics_confined. Qed.
 Print Assumptions C19_metrics_confined.
-(* ... but the TAG KEYS of a datapoint name the tags-tree files.  REFUTED: no validator. *)
+(* ... but the TAG KEYS of a datapoint name the tags-tree files.  Validator at the flush:
+   IsSafePathComponent (before the fix: none). *)
+Theorem C19_tagstree_confined : forall D H mid suf key, is_dir D -> good_host H ->
+  numeral mid = true -> numeral suf = true -> tagkey_ok key = true ->
+  confined D (site_tagstree D H mid suf key) = true.
+Proof. exact site_tagstree_confined. Qed.
+Print Assumptions C19_tagstree_confined.
 Theorem C19_tagstree_guarded : forall D H mid suf key, is_dir D -> good_host H ->
   numeral mid = true -> numeral suf = true -> no_slash key = true ->
   confined D (site_tagstree D H mid suf key) = true.
@@ -169,7 +202,7 @@ Print Assumptions C19_saved_queries_confined.
 
 (* non-vacuity of the guards, and tightness of the upload guard *)
 Theorem C19_guards_satisfiable :
-  (stays_within 1 (upload_name [97;98] false) = true /\ upload_ok [97;98] = true) /\
+  (stays_within 1 (upload_name [97;98] false) = true /\ upload_ok [97;98] = true /\ upload_ok_v0 [97;98] = true) /\
   (stays_within 1 [97;46;99;115;118] = true /\ inputlookup_ok [97;46;99;115;118] = true) /\
   (no_slash [46;46] = true /\ no_slash [97;45;49] = true) /\
   (forallb uuid_like [[97;49;45;98]] = true /\ scroll_ok [[97;49;45;98]] [97;49;45;98] = true) /\
@@ -179,3 +212,14 @@ Proof.
         (conj guard_scroll_sat (conj guard_numeral_sat (conj wD_is_dir wH_good)))))).
 Qed.
 Print Assumptions C19_guards_satisfiable.
+
+(* the validator accepts ordinary names (file names with dots, index names with '-' and '.',
+   tag keys) and rejects every witness of the pre-fix refutations, "", ".", "..", '\' and NUL *)
+Theorem C19_validator_satisfiable_and_rejects_witnesses :
+  (upload_ok [97;46;99;115;118] = true /\ inputlookup_ok [97;46;99;115;118] = true /\
+   index_ok [105;45;49;46;120] = true /\ tagkey_ok [46;46;46] = true) /\
+  (safe_component w_up3 = false /\ safe_component w_up2csv = false /\ safe_component w_up6 = false /\
+   safe_component DD = false /\ safe_component [DOT] = false /\ safe_component [] = false /\
+   safe_component [97;92;98] = false /\ safe_component [97;0] = false).
+Proof. exact (conj validator_sat validator_rejects_witnesses). Qed.
+Print Assumptions C19_validator_satisfiable_and_rejects_witnesses.
